@@ -1190,7 +1190,15 @@ def call(I, fr, name, fname, k, args, depth):
             if meth in ("shift_remove", "swap_remove"):
                 k_ = _fz(deref(I, deref(I, args[1]) if isinstance(deref(I, args[1]), Ref) else args[1]))
                 if meth == "swap_remove" and k_ in m.d and list(m.d.keys())[-1] != k_:
-                    raise Unsupported("IndexMap::swap_remove of a non-last key (order-changing)")
+                    # the last entry takes the removed entry's position
+                    its_ = list(m.d.items())
+                    idx_ = [kk for kk, _p in its_].index(k_)
+                    v_ = its_[idx_][1]
+                    last_ = its_.pop()
+                    its_[idx_] = last_
+                    m.d.clear()
+                    m.d.update(its_)
+                    return some(v_[1])
                 v_ = m.d.pop(k_, None)
                 return some(v_[1]) if v_ else NONE()
             if meth == "get_index":
